@@ -228,6 +228,8 @@ def unbound_names(prog: list[str]) -> list[str]:
             use(n)
             defined.add(i)
             use(c)
+        elif kind == "breakif":
+            use(rest)
         elif kind == "return":
             for x in rest.split(","):
                 use(x)
@@ -235,33 +237,13 @@ def unbound_names(prog: list[str]) -> list[str]:
 
 
 def classify(stage: str, case: dict, opts: dict, mprog: list[str] | None, mres: str, detail: str = "") -> str | None:
-    """The OPEN known finding whose predicate contains this failing (case, options), if any.
-    Fixed findings (D14, RENAME-SIG, NANINF, EMPTYLIST, POW-NEG, ATTR-INPUT-CLASH, SKIP-RAND, FOR-MAIN, SKIP-INDENT,
-    OPS-NO-OPSET)
-    have no predicate any more: a failure there is a VIOLATION again."""
-    f = case["facts"][L.opts_str(opts)]
-    ub = unbound_names(mprog) if mprog else []
-    if stage == "export":
-        if opts["skip_initializers"] and f["big_nonfloat"] and mres == "ERR:NotImplementedError":
-            return "C13-SKIP-RAND-REST"
-        return None
-    if stage == "compile":
-        return None
-    if (stage == "run" and isinstance(case["proto"], onnx.ModelProto) and len(case["proto"].functions)
-            and "is not a registered function/op" in detail):
-        return "C13-LOCAL-FUNCTIONS"
+    """The OPEN known finding whose predicate contains this failing (case, options), if any.  Every other finding of
+    this property is fixed in /repo: a failure there is a VIOLATION again.  Only converter *refusals* (stages exec /
+    to_model) can be known; a completed round trip with a different signature or different results never is."""
     if stage not in ("exec", "to_model"):
-        # every open finding is a *refusal* of the generated text by the converter; a round trip that completes with a
-        # different signature or different results is never known
         return None
     if mprog and any(" forbreak " in ln for ln in mprog):
         return "C13-LOOP-BREAK"
-    if opts["inline_const"] and f["inline_nonref"] and ub:
-        return "C13-INLINE-DANGLING"
-    if f["opset_alias"]:
-        return "C13-OPSET-NAME"
-    if f["dead_if"] and stage in ("exec", "to_model"):
-        return "C13-DEAD-IF"
     return None
 
 
@@ -891,7 +873,11 @@ def witnesses() -> list[tuple[str, dict, dict]]:
         [H.make_tensor_value_info("c_out", TP.BOOL, []), H.make_tensor_value_info("s_out", TP.FLOAT, [3])],
     )  # fmt: skip
     m = _mk([H.make_node("Loop", ["n", "", "x"], ["y"], body=body)], [f3, ("n", TP.INT64, [])], [y3])
-    out.append(("C13-LOOP-BREAK", case_of_model(m, [{"x": X, "n": np.array(3, dtype=np.int64)}], {"refusal": None, "flags": ["witness"]}), dict(base)))
+    out.append(("C13-LOOP-BREAK-NOINIT", case_of_model(m, [{"x": X, "n": np.array(3, dtype=np.int64)}], {"refusal": None, "flags": ["witness"]}), dict(base)))
+    # the same loop WITH an initial condition input: still printed as for + first `if not c: break` (open, narrowed)
+    m = _mk([H.make_node("Loop", ["n", "c0", "x"], ["y"], body=body)], [f3, ("n", TP.INT64, []), ("c0", TP.BOOL, [])], [y3])
+    out.append(("C13-LOOP-BREAK", case_of_model(m, [{"x": X, "n": np.array(3, dtype=np.int64), "c0": np.array(True)}],
+                                                {"refusal": None, "flags": ["witness"]}), dict(base)))
     # inlined constant used as a branch output
     tb = H.make_graph([H.make_node("Constant", [], ["k1"], value=H.make_tensor("value", TP.FLOAT, [3], [1.0, 2.0, 3.0]))], "t", [], [H.make_tensor_value_info("k1", TP.FLOAT, [3])])
     eb = H.make_graph([H.make_node("Neg", ["x"], ["k2"])], "e", [], [H.make_tensor_value_info("k2", TP.FLOAT, [3])])
